@@ -22,4 +22,42 @@ def render (os : List Out) : Bytes := os.flatMap renderOut
 /-- `showInURL` escapes what `html.UnescapeString` makes of the HTML rendering of the value -/
 def shownString (v : Bytes) : Bytes := Decode.htmlDecode Decode.stdNamed (htmlEscapeOut v)
 
+/-- The same pipeline by the names of its two stages (regenerated from the body of `showInURL`
+into `Gen/ShowInURLPipe.lean`): what the escapers receive for a plain string `v`. `none` = a
+stage this model does not know. -/
+def shownStringVia (shownVia decodedBy : String) (v : Bytes) : Option Bytes :=
+  let written : Option Bytes :=
+    if shownVia = "showInHTML" then some (htmlEscapeOut v)   -- a plain string is HTML-escaped
+    else if shownVia = "showInText" then some v               -- … is written as it is
+    else none
+  written.bind fun w =>
+    if decodedBy = "html.UnescapeString" then some (Decode.htmlDecode Decode.stdNamed w)
+    else if decodedBy = "" then some w
+    else none
+
+/-- A URL attribute value as the template and the renderer put it together, piece by piece:
+static text without `&`, the entity `&amp;` (written by the author as a separator, or by the
+renderer: `Out.amp`), and a plain string shown in a query position. -/
+inductive Piece where
+  | plain (b : Bytes)
+  | amp
+  | value (v : Bytes)
+  deriving DecidableEq, Repr
+
+/-- the bytes of the rendered document -/
+def Piece.src : Piece → Bytes
+  | .plain b => b
+  | .amp => ampEntity
+  | .value v => queryEscapeOut (shownString v)
+
+/-- the bytes of the attribute value after the HTML tokenizer has decoded character references -/
+def Piece.val : Piece → Bytes
+  | .plain b => b
+  | .amp => [0x26]
+  | .value v => queryEscapeOut v
+
+def Piece.ok : Piece → Bool
+  | .plain b => !b.contains 0x26
+  | _ => true
+
 end ScriggoV.URLRender
